@@ -30,8 +30,10 @@ TECHNIQUE = "Coq theorems about the list operations (frame properties: every oth
 LEVEL_TEXT = ("The model's operations ARE the list operations of the property; theorems state their frame properties for every list and target (insert adds exactly one line and keeps all "
               "others in order; delete removes exactly the selected index set; set_nth changes one line; flagged insertion adds one line per regex match). The real code is tied to these "
               "operations by comparing get_text() after every step of exhaustive single-operation and random multi-step histories, and append_to_family's contract (one line, inside the "
-              "family, no existing parent changed) is evaluated on the implementation's observed insertion index with the proved constructor model.")
-LEVEL_NOTE = ("PARTIAL for append_to_family: its index arithmetic is not modelled; the contract is checked per observed case (not proved for all configs). Known finding F35 (families made "
+              "family, no existing parent changed) is evaluated on the implementation's observed insertion index with the proved constructor model. "
+              "insertion_preserves_parents characterises when an inserted line leaves every existing parent link alone (conditions A and B), and insertion_after_family_preserves_parents proves both "
+              "conditions for every insertion directly above a shallower ordinary command or at the end of the configuration (append_to_family's normal case).")
+LEVEL_NOTE = ("PARTIAL for append_to_family: its index arithmetic is not modelled; the contract is checked per observed case (the index it picks is not proved for all configs; what is proved is that the index the contract allows is harmless). Known finding F35 (families made "
               "non-contiguous by the comment exception) is recognised by its trigger. Trusted: Coq kernel + vm_compute, hand model, regex oracle, driver.")
 
 SYM = ["a", " b", "  c", " Eth1", "!x", ""]
